@@ -63,6 +63,16 @@ def tables(cs, rng, n):
     out.append(("one-col-unbound", {"vars": ["a"], "rows": [{"a": cs[0]}, {}, {"a": cs[2]}]}))
     out.append(("trailing-unbound", {"vars": ["a", "b", "c"], "rows": [{"a": cs[0], "b": cs[4]}, {"a": cs[1]}, {"c": cs[3]}]}))
     out.append(("never-bound-var", {"vars": ["a", "z"], "rows": [{"a": cs[0]}, {"a": cs[1]}]}))
+    # cells that differ only in language tag / datatype, in one table (a reader that shares cells must keep them apart)
+    same = [L("chat", lang="en"), L("chat", lang="fr"), L("chat"), L("chat", dt=XSD + "string"), L("chat", dt=EX + "dt"), I("chat:x"), L("1", dt=XSD + "integer"), L("1"), L("1", dt=XSD + "decimal")]
+    out.append(("same-lexical", {"vars": ["a", "b"], "rows": [{"a": same[i], "b": same[(i + 1) % len(same)]} for i in range(len(same))]}))
+    out.append(("same-lexical-col", {"vars": ["a"], "rows": [{"a": x} for x in same]}))
+    # text that looks like the syntax around it
+    looks = [L("write to info@example.org", lang="en"), L("2^^10", dt=EX + "expr"), L("a@b"), L("x^^y"), L("a@en", lang="fr"), L("<urn:x>"), L("_:b1"), L("\"q\"@en"), L("-1.0"), L("true"), L("1e3"), L("-1.0", dt=XSD + "decimal"),
+             L("-5", dt=XSD + "integer"), L("-1.5", dt=XSD + "double"), L("7", dt=XSD + "integer"), L("-0.25", dt=XSD + "decimal"), L("1.0", dt=XSD + "decimal")]
+    out.append(("looks-like-syntax", {"vars": ["a", "b"], "rows": [{"a": looks[i], "b": looks[-1 - i]} for i in range(len(looks))]}))
+    for i, x in enumerate(looks):
+        out.append(("looks-like-syntax-1", {"vars": ["a"], "rows": [{"a": x}]}))
     out.append(("duplicate-rows", {"vars": ["a"], "rows": [{"a": cs[0]}, {"a": cs[0]}, {"a": cs[2]}, {"a": cs[2]}]}))
     out.append(("var-order", {"vars": ["z", "a", "m"], "rows": [{"z": cs[0], "a": cs[1], "m": cs[5]}]}))
     for i, c in enumerate(cs):
